@@ -30,7 +30,7 @@ Init == \/ /\ Mode = "emit" /\ sk \in 1..NSkel
                  /\ nm \in Namings(k, Pool, m) /\ evs = k.evs /\ gl = k.G /\ ms = m /\ st = InitSt(k.G, nm)
            /\ pc = 1
         \* one behaviour per (skeleton, binder) checks and emits the planted uses of that binder
-        \/ /\ Mode = "emit" /\ sk \in 1..NSkel /\ pc \in {0 - b : b \in 1..NB(sk)}
+        \/ /\ Mode = "emit" /\ sk \in 1..NSkel /\ pc \in {0 - b : b \in (1..NB(sk)) \cup SelfBinders(sk)}
            /\ nm = <<>> /\ evs = <<>> /\ gl = <<>> /\ ms = <<>> /\ st = EmptySt
         \/ /\ Mode = "gen" /\ sk \in 1..Len(GenCases) /\ nm = <<>> /\ evs = <<>> /\ gl = <<>> /\ ms = <<>> /\ pc = 0 /\ st = EmptySt
 
@@ -45,6 +45,8 @@ EnterBranch   == At("enterbranch") /\ Go(Push(st, evs[pc].fk, pc))
 ExitBranch    == At("exitbranch") /\ CanPop(st, evs[pc].fk) /\ Go(Pop(st))
 EnterArm      == At("enterarm") /\ Go(EnterArmB(st, evs[pc], nm, pc))
 ExitArm       == At("exitarm") /\ CanPop(st, evs[pc].fk) /\ Go(Pop(st))
+EnterMethod   == At("entermethod") /\ Go(EnterArmB(st, evs[pc], nm, pc))     \* a method field: declares the literal's `self`
+ExitMethod    == At("exitmethod") /\ CanPop(st, "method") /\ Go(Pop(st))
 EnterLoopBody == At("enterloop") /\ Go(Push(st, "loop", pc))
 ExitLoopBody  == At("exitloop") /\ CanPop(st, "loop") /\ Go(Pop(st))
 Declare       == At("declare") /\ Go(DeclareB(st, evs[pc].b, nm))
@@ -70,12 +72,12 @@ EmitSkeleton(k) ==
 CheckPlanted ==
     /\ Mode = "emit" /\ pc < 0 /\ pc > 0 - 100 /\ pc' = pc - 100 /\ UNCHANGED <<sk, nm, evs, gl, ms, st>>
     /\ LET k == SkInfo(sk) IN
-       \A p \in {q \in Triples(k) : q[1] = 0 - pc} :
+       \A p \in TriplesOf(k, 0 - pc) :
          LET b == p[1]
              s == p[2]
              in == PairInScope(k, b, s)
              pr == PlantedResult(k, b, s, p[3])
-         IN /\ Assert(pr.n = 1 /\ (in => pr.r = b) /\ (~in => pr.r = 0),
+         IN /\ Assert(pr.n = 1 /\ (in => pr.r = b) /\ (~in => pr.r = OtherReferent(k.sc, b, s) /\ pr.r # b),
                       <<"OutOfScopeUnresolved: scan and machine disagree on a planted use", sk, p, pr>>)
             /\ PrintT(<<"REPLAY", ToJson([t |-> "oos", sk |-> k.i, b |-> b, slot |-> s, form |-> p[3], inscope |-> in,
                                           cls |-> IF in THEN "in-scope" ELSE PosClass(k.sc, b, s),
@@ -96,7 +98,7 @@ GenEmit == /\ Mode = "gen" /\ pc = 0 /\ pc' = 1 /\ UNCHANGED <<sk, nm, evs, gl, 
                                                ncolours |-> r.nc, nbinders |-> r.nb, uses |-> r.uses])>>)
 
 Next == EnterFn \/ ExitFn \/ EnterBlock \/ ExitBlock \/ EnterBranch \/ ExitBranch \/ EnterArm \/ ExitArm
-        \/ EnterLoopBody \/ ExitLoopBody \/ Declare \/ Use \/ QualifiedUse \/ EnterModule \/ EnterTop \/ Finish \/ CheckPlanted \/ GenEmit
+        \/ EnterMethod \/ ExitMethod \/ EnterLoopBody \/ ExitLoopBody \/ Declare \/ Use \/ QualifiedUse \/ EnterModule \/ EnterTop \/ Finish \/ CheckPlanted \/ GenEmit
 Spec == Init /\ [][Next]_vars
 
 (* ------------------------------------------------ invariants of the machine *)
@@ -107,6 +109,8 @@ StackOk == Emitting =>
     /\ \A i \in 1..(Len(st.frames) - 1) : st.frames[i].base <= st.frames[i + 1].base
     /\ \A i \in 1..Len(st.stack) : st.stack[i].n = NameOf(nm, st.stack[i].b)
     /\ \A i \in 1..Len(st.stack) : \A j \in 1..Len(st.stack) : st.stack[i].b = st.stack[j].b => i = j
+    \* `self` is on the stack exactly inside the method fields of blob literals: one entry per open method frame
+    /\ Cardinality({i \in 1..Len(st.stack) : IsSelfId(st.stack[i].b)}) = Cardinality({i \in 1..Len(st.frames) : st.frames[i].fk = "method"})
 \* exactly one action is enabled until the walk is over: the machine is deterministic and never stuck
 NoStuck == (Emitting /\ pc <= N) =>
     /\ evs[pc].k \in (EventKinds \ {"slot"})
@@ -122,7 +126,7 @@ DoneOk == (Emitting /\ pc = N + 1 /\ Mode = "emit") =>
 
 (* ----------------------------------------- properties of the case universe *)
 Sk == 1..NSkel
-Declared(k) == {k.sc.order[j] : j \in 1..Len(k.sc.order)}
+Declared(k) == {k.sc.order[j] : j \in 1..Len(k.sc.order)}           \* (without the `self` binders)
 OwnGlobals(k) == {g \in DOMAIN k.G : k.sc.bk[g] \in {"global", "globalfn"}}
 UsedIn(k) == {k.evs[j].b : j \in {x \in 1..Len(k.evs) : k.evs[x].k \in {"use", "quse"}}}
 OosTriples(k) == {p \in Triples(k) : ~PairInScope(k, p[1], p[2])}
@@ -140,9 +144,10 @@ ASSUME SkeletonsWellFormed == \A i \in Sk : LET k == SkInfo(i) IN
     /\ Len(k.sc.order) = Cardinality(Declared(k))                 \* every binder is declared once
     /\ Declared(k) \cup (OwnGlobals(k) \ {SStart}) = 1..k.nb     \* the renamable binders are 1..NB
     /\ Declared(k) \cap DOMAIN k.G = {}
-    /\ UsedIn(k) \subseteq Declared(k) \cup DOMAIN k.G
-    /\ k.nb <= 6
-    /\ IntBinders(i) \cup Fn0Binders(i) \cup EnumBinders(i) \subseteq 1..k.nb /\ MutIntBinders(i) \subseteq IntBinders(i)
+    /\ UsedIn(k) \subseteq Declared(k) \cup DOMAIN k.G \cup SelfBinders(i)
+    /\ k.nb <= 7
+    /\ IntBinders(i) \cup Fn0Binders(i) \cup EnumBinders(i) \subseteq (1..k.nb) \cup SelfBinders(i) /\ MutIntBinders(i) \subseteq IntBinders(i)
+    /\ SelfBinders(i) = {b \in DOMAIN k.sc.bk : k.sc.bk[b] = "self"} /\ SelfBinders(i) \subseteq SelfIds
 ASSUME AllDistinctLegal == \A i \in Sk : LET k == SkInfo(i) IN Legal(k.evs, k.G, AllDistinct(k.nb))
 ASSUME MaxShadowLegal == \A i \in Sk : LET k == SkInfo(i)
                                            m == MaxShadowOf(k)
@@ -152,8 +157,8 @@ Rot(n) == (n % Pool) + 1
 ASSUME NamesOnlyCompared == \A i \in Sk : LET k == SkInfo(i) IN \A n \in [1..k.nb -> 1..Pool] :
     ProperColouring(k.sc.conf, n) = ProperColouring(k.sc.conf, [j \in 1..k.nb |-> Rot(n[j])])
 \* every binder has an accepted base (a use inside its scope); every local binder has out-of-scope positions
-ASSUME EveryBinderHasBase == \A i \in Sk : LET k == SkInfo(i) IN \A b \in 1..k.nb :
-    /\ \E p \in InTriples(k) : p[1] = b /\ p[3] = "arg"
+ASSUME EveryBinderHasBase == \A i \in Sk : LET k == SkInfo(i) IN \A b \in (1..k.nb) \cup SelfBinders(i) :
+    /\ \E p \in InTriples(k) : p[1] = b /\ p[3] \in {"arg", "expr"}
     /\ (b \notin DOMAIN k.G => \E p \in OosTriples(k) : p[1] = b)
 ASSUME ClassesCovered == LET cells == AllCells IN
     /\ \A c \in PosClasses : \E x \in cells : x[1] = c
@@ -162,9 +167,23 @@ ASSUME ClassesCovered == LET cells == AllCells IN
         <<"after-case-arm", "local">>, <<"after-case-else", "local">>, <<"after-loop", "local">>,
         <<"after-fn", "param">>, <<"before-fn", "param">>, <<"after-fn", "local">>,
         <<"before-decl", "local">>, <<"before-decl", "fnlocal">>,
-        <<"other-module", "global">>, <<"other-module", "globalfn">>} \subseteq cells
+        <<"other-module", "global">>, <<"other-module", "globalfn">>,
+        <<"before-method", "self">>, <<"after-method", "self">>, <<"other-instance", "self">>,
+        <<"before-decl", "fnlocal-mut">>, <<"before-decl", "fnlocal-tconst">>, <<"before-decl", "fnlocal-tmut">>,
+        <<"before-decl", "fnlocal-paren-mut">>, <<"after-block", "fnlocal-mut">>} \subseteq cells
     /\ \A x \in cells : x[1] \in PosClasses \cup {"before-block", "before-if-branch", "before-elif-branch",
                                                   "before-else-branch", "before-case-arm", "before-case-else", "before-loop"}
+    \* `self`: every arrangement of the fields of a literal - the word is planted in a data field before the first
+    \* method, after a method, after a parenthesised method, in the fields of a nested literal, in the fields of a
+    \* literal that is built inside a method of another blob (there it is that method's instance), inside the methods
+    /\ LET k == SkInfo(23)
+           at(b, s) == IF PairInScope(k, b, s) THEN "in" ELSE PosClass(k.sc, b, s)
+       IN /\ at(41, 21) = "before-method" /\ at(41, 22) = "after-method" /\ at(41, 23) = "after-method"
+          /\ at(41, 2) = "in" /\ at(41, 3) = "in"
+          /\ at(41, 24) = "after-method" /\ at(41, 4) = "other-instance" /\ at(42, 4) = "in" /\ at(42, 25) = "after-method"
+          /\ at(42, 24) = "before-method" /\ at(41, 26) = "after-method"
+          /\ at(43, 27) = "in" /\ at(43, 29) = "in" /\ at(43, 28) = "other-instance" /\ at(44, 28) = "in"
+          /\ at(44, 27) = "other-instance" /\ at(44, 29) = "other-instance" /\ at(41, 1) = "before-method" /\ at(41, 6) = "after-method"
     \* scopes that sit directly in a global's initialiser
     /\ {"after-if-branch", "after-else-branch", "after-case-arm", "after-block", "before-decl"} \subseteq AllGInitCells
 \* every syntactic position is planted out of scope inside void and inside value-returning functions (and, but for
@@ -175,6 +194,23 @@ ASSUME FormsCovered == LET fc == AllFormCells IN
     /\ \A fm \in StmtForms \ {"index-base", "field-base"} : \E x \in fc : x[1] = fm /\ x[2]
     /\ <<"ret-call", TRUE, "void">> \in fc /\ <<"ret-val", TRUE, "value">> \in fc
     /\ <<"expr", FALSE, "none">> \in fc
+\* dead code: behind every kind of jump, directly in every kind of block (function body, do block, if / elif / else
+\* body, case arm, case else, loop body) there is a use whose binder is not visible; the wrapped forms are planted
+\* out of scope at every statement slot of the round-1/2 skeletons
+DeadCellsOf(k) == {<<p[3], InnerFk(k, p[2])>> : p \in {q \in OosTriples(k) : q[3] \in DeadDirect}}
+ASSUME DeadCovered == LET dc == UNION {DeadCellsOf(SkInfo(i)) : i \in Sk} IN
+    /\ \A fk \in FrameKinds \ {"method"} : \E x \in dc : x[2] = fk /\ x[1] \in {"dead-ret", "dead-retv"}
+    /\ \A fk \in {"loop", "if-branch", "case-arm", "case-else", "block"} :
+          <<"dead-break", fk>> \in dc /\ <<"dead-continue", fk>> \in dc
+    /\ \A i \in 1..17 : LET k == SkInfo(i) IN \A p \in Pairs(k) :
+          (IsStmtSlot(p[2]) /\ ~PairInScope(k, p[1], p[2])) => \A fm \in DeadWrapped : <<p[1], p[2], fm>> \in Triples(k)
+    /\ \E i \in Sk : \E p \in InTriples(SkInfo(i)) : p[3] \in DeadDirect
+\* the recursive local function of skeletons 18..22 may take the name of the global function, of the parameter and of
+\* the enclosing local around it (and every other binder's but its own parameter's), under every declaration kind
+ASSUME LocalRecCovered == \A i \in 18..22 : LET k == SkInfo(i) IN
+    /\ k.sc.bk[6] = (IF DeclKindOf(i) = "const" THEN "fnlocal" ELSE "fnlocal-" \o DeclKindOf(i))
+    /\ \A j \in {1, 2, 3, 4, 5} : Legal(k.evs, k.G, PairMerge(k.nb, j, 6))
+    /\ ~Legal(k.evs, k.G, [x \in 1..k.nb |-> IF x = 7 THEN 6 ELSE x])
 \* role names: every binder kind can legally carry `start` somewhere, and a global of another module too
 SpecialCellsOf(k, r) == {k.sc.bk[j] : j \in {x \in 1..k.nb : Legal(k.evs, k.G, SpecialNaming(k.nb, x, r))}}
 ASSUME SpecialCovered ==
